@@ -1911,19 +1911,46 @@ func (ls *LState) PCall(nargs, nret int, errfunc *LFunction) (err error) {
 }
 
 func (ls *LState) GPCall(fn LGFunction, data LValue) error {
-	ls.Push(newLFunctionG(fn, ls.currentEnv(), 0))
-	ls.Push(data)
+	if err := ls.pushProtected(newLFunctionG(fn, ls.currentEnv(), 0), data); err != nil {
+		return err
+	}
 	return ls.PCall(1, MultRet, nil)
 }
 
-func (ls *LState) CallByParam(cp P, args ...LValue) error {
-	ls.Push(cp.Fn)
+// pushProtected pushes a function and its arguments for a protected call. If the registry cannot take them the
+// error is returned (not panicked) and the stack is left as it was.
+func (ls *LState) pushProtected(fn LValue, args ...LValue) (err error) {
+	top := ls.reg.Top()
+	oldpanic := ls.Panic
+	ls.Panic = panicWithoutTraceback
+	defer func() {
+		ls.Panic = oldpanic
+		if rcv := recover(); rcv != nil {
+			if aerr, ok := rcv.(*ApiError); ok {
+				err = aerr
+			} else {
+				err = newApiErrorS(ApiErrorPanic, fmt.Sprint(rcv))
+			}
+			ls.reg.SetTop(top)
+		}
+	}()
+	ls.Push(fn)
 	for _, arg := range args {
 		ls.Push(arg)
 	}
+	return nil
+}
 
+func (ls *LState) CallByParam(cp P, args ...LValue) error {
 	if cp.Protect {
+		if err := ls.pushProtected(cp.Fn, args...); err != nil {
+			return err
+		}
 		return ls.PCall(len(args), cp.NRet, cp.Handler)
+	}
+	ls.Push(cp.Fn)
+	for _, arg := range args {
+		ls.Push(arg)
 	}
 	ls.Call(len(args), cp.NRet)
 	return nil
